@@ -264,6 +264,34 @@ def copySoupImpl (fresh : TagData) (inh : Option Bool) (next : Nat) : Node → O
     | some ⟨n, top :: rest⟩ => some (collapse top rest, n)
     | _ => none
 
+/-- what a `BeautifulSoup` object holds besides being the root tag: the `TreeBuilder` (by identity), `is_xml`, the
+    `parse_only` strainer and the `element_classes` mapping (by identity; `none` = `None` resp. `{}`), and what
+    `prepare_markup` reported about the input -/
+structure SoupInfo where
+  builder : Nat
+  builderIsXml : Bool                      -- `builder.is_xml`
+  isXml : Bool                             -- `self.is_xml`
+  parseOnly : Option Nat
+  elementClasses : Option Nat
+  originalEncoding : Option PStr
+  declaredHtmlEncoding : Option PStr
+  containsReplacementCharacters : Bool
+deriving DecidableEq, Repr
+
+/-- `BeautifulSoup.copy_self` (bs4/__init__.py:492-503): `clone = type(self)("", None, self.builder)` — `__init__` with an
+    instantiated builder keeps that very object (:330-345), sets `is_xml = builder.is_xml` (:379), `parse_only = None` and
+    `element_classes = {}` (the defaults of the call), and takes `original_encoding`, `declared_html_encoding`,
+    `contains_replacement_characters` = `None, None, False` from `prepare_markup("")` (:467-476) — then
+    `clone.original_encoding = self.original_encoding`. -/
+def soupCopySelf (s : SoupInfo) : SoupInfo :=
+  { builder := s.builder, builderIsXml := s.builderIsXml, isXml := s.builderIsXml, parseOnly := none, elementClasses := none,
+    originalEncoding := s.originalEncoding, declaredHtmlEncoding := none, containsReplacementCharacters := false }
+
+/-- `__getstate__`/`__setstate__` keep the whole `__dict__`: everything but the identity of the builder (a pickled copy
+    of it, or a new instance of its class when it is not picklable), the strainer and the mapping (pickled copies) -/
+def soupPickle (fresh : Nat) (s : SoupInfo) : SoupInfo :=
+  { s with builder := fresh, parseOnly := s.parseOnly.map fun _ => fresh + 1, elementClasses := s.elementClasses.map fun _ => fresh + 2 }
+
 /-! ### spec: the obvious recursion, ids allocated in pre-order -/
 
 mutual
@@ -583,8 +611,55 @@ def getStateStale {T : Type} (decode : T → PStr) (d : PDoc T) : PStr :=
 
 /-! ### `hash` -/
 
+/-- the shape as a renderer that does not depend on the order of the attribute dict sees it (the default
+    `Formatter.attributes` sorts `tag.attrs.items()`): attributes as a finite map from key text to key kind and value -/
+inductive RShape where
+  | str (cls : Nat) (val : PStr)
+  | tag (d : SData) (attrs : PStr → Option (KMeta × SVal)) (kids : List RShape)
+
+mutual
+def rshapeOf : Shape → RShape
+  | .str c v => .str c v
+  | .tag d ks => .tag { d with attrs := [] } (fun k => d.attrs.lookup k) (rshapeOfL ks)
+def rshapeOfL : List Shape → List RShape
+  | [] => []
+  | k :: ks => rshapeOf k :: rshapeOfL ks
+end
+
 /-- `Tag.__hash__`: `str(self).__hash__()` = `hash(self.decode())`, for any renderer that reads the tree through its
-    identity-free shape and any string hash -/
-def hashImpl (render : Shape → PStr) (h : PStr → Nat) (inh : Option Bool) (t : Node) : Nat := h (render (shape inh t))
+    identity-free, attribute-order-free shape and any string hash -/
+def hashImpl (render : RShape → PStr) (h : PStr → Nat) (inh : Option Bool) (t : Node) : Nat :=
+  h (render (rshapeOf (shape inh t)))
+
+/-! #### what `==` does not look at -/
+
+/-- the kind and class of an attribute value, without its content -/
+inductive VDecor where
+  | str (cls : Nat) | list (cls : Nat) | int | bool | none
+deriving DecidableEq, Repr
+
+def AVal.decor : AVal → VDecor
+  | .str c _ => .str c
+  | .list _ c _ => .list c
+  | .int _ => .int
+  | .bool _ => .bool
+  | .none => .none
+
+/-- everything of the shape that `==` ignores: string classes; per tag the prefix, namespace, dict class and settings
+    (`SData` with name and attributes blanked), and per attribute key its key kind and the kind/class of its value -/
+inductive Decor where
+  | str (cls : Nat)
+  | tag (d : SData) (attrs : PStr → Option (KMeta × VDecor)) (kids : List Decor)
+
+mutual
+def decor (inh : Option Bool) : Node → Decor
+  | .str _ c _ => .str c
+  | .tag _ d ks =>
+    .tag { shapeData d (isXml inh d) with name := [], attrs := [] }
+      (fun k => (d.attrs.lookup k).map fun e => (e.1, e.2.decor)) (decorL (isXml inh d) ks)
+def decorL (inh : Option Bool) : List Node → List Decor
+  | [] => []
+  | k :: ks => decor inh k :: decorL inh ks
+end
 
 end BS.Copy
